@@ -616,13 +616,8 @@ MutableNodeRefList::addNodeInDocOrder(
 
                 // Normalize so that if we have a document node, it owns
                 // itself, which is not how DOM works...
-                const XalanNode::NodeType   theFirstNodeType =
-                    theFirstNode->getNodeType();
-
                 const XalanNode* const  theFirstNodeOwner =
-                     theFirstNodeType == XalanNode::DOCUMENT_NODE ||
-                     theFirstNodeType == XalanNode::DOCUMENT_FRAGMENT_NODE ?
-                            theFirstNode : theFirstNode->getOwnerDocument();
+                    getNormalizedOwner(*theFirstNode);
                 assert(theFirstNodeOwner != 0);
 
                 if (node == theFirstNodeOwner)
@@ -643,12 +638,8 @@ MutableNodeRefList::addNodeInDocOrder(
                     // nodes from the same document.
                     // Normalize so that if we have a document node, it owns
                     // itself, which is not how DOM works...
-                    const XalanNode::NodeType   theLastNodeType =
-                            theLastNode->getNodeType();
                     const XalanNode* const  theLastNodeOwner =
-                        theLastNodeType == XalanNode::DOCUMENT_NODE ||
-                        theLastNodeType == XalanNode::DOCUMENT_FRAGMENT_NODE ?
-                                theLastNode : theLastNode->getOwnerDocument();
+                        getNormalizedOwner(*theLastNode);
                     assert(theLastNodeOwner != 0);
 
                     // If the owner document is 0, then it's a document node, so there's not
